@@ -118,14 +118,16 @@ def outcomeS : Core.Outcome → String
   | .unsupported w => s!"UNSUPPORTED {hexS w}"
   | .timeout => "TIMEOUT"
 
-/-- `spec <fuel> <callLimit> <modules sexp>` → outcome of the specification semantics. -/
+/-- `spec <fuel> <callLimit> <modules sexp>` → outcome of the specification semantics;
+`(hosted (singletons (x<name> V)…) <modules sexp>)` in place of the modules: the host provides these
+singleton values. -/
 def cmdSpec (payload : String) : String :=
   match payload.splitOn " " with
   | fuelS :: limS :: rest =>
     match fuelS.toNat?, limS.toNat?, Sexp.parse (" ".intercalate rest) with
     | some fuel, some lim, some sx =>
-      match Decode.program sx with
-      | .ok prog => outcomeS (Core.runProgram { prog := prog, callLimit := lim } fuel)
+      match Decode.hostedProgram sx with
+      | .ok (prog, host) => outcomeS (Core.runProgram { prog := prog, callLimit := lim, hostSingletons := host } fuel)
       | .error e => s!"DECODE-ERROR {hexS e}"
     | _, _, _ => "BAD-INPUT"
   | _ => "BAD-INPUT"
